@@ -164,6 +164,19 @@ FENCE_SUCC_GUARD = ("    if succ < 0b0000 or succ > 0b1111:\n        raise Value
 FENCE_PRED_GUARD = ("    if pred < 0b0000 or pred > 0b1111:\n        raise ValueError('invalid predecessor value for FENCE instruction: {}'.format(pred))\n")
 FENCE_PRED_RAISE = "        raise ValueError('invalid predecessor value for FENCE instruction: {}'.format(pred))\n"
 
+RTYPE_LOOKUPS = RTYPE_DEF + "\n    rd = lookup_register(rd)\n    rs1 = lookup_register(rs1)\n    rs2 = lookup_register(rs2)\n"
+INT_TRY_FULL = "    try:\n        reg = int(reg, base=0)\n    except:\n        pass\n"
+TABLE_TRY_KEY = TABLE_TRY.replace('REGISTERS[reg]', 'REGISTERS[key]')
+
+
+def rlook(expr):
+    return [(A, RTYPE_LOOKUPS, RTYPE_DEF + "\n    rd, rs1, rs2 = " + expr + "\n")]
+
+
+def fallback_key(conv):
+    return [(A, INT_TRY_FULL, "    try:\n        key = " + conv + "\n    except:\n        key = reg\n"), (A, TABLE_TRY, TABLE_TRY_KEY)]
+
+
 PRESERVING = [
     ('p-enc-get-none', ENC, [(A, TABLE_TRY, GET_NONE)]),
     ('p-enc-membership', ENC, [(A, TABLE_TRY, MEMBER)]),
@@ -204,6 +217,11 @@ PRESERVING = [
     ('p-enc-fence-merged-guard', ENC, [(A, FENCE_SUCC_GUARD, ""),
                                         (A, FENCE_PRED_GUARD, "    if not (0 <= succ <= 0b1111 and 0 <= pred <= 0b1111):\n        raise ValueError('invalid successor / predecessor value for FENCE instruction: {} {}'.format(succ, pred))\n")]),
     ('p-enc-fence-imm-by-arithmetic-guarded', ENC, [(A, FENCE_IMM, "    imm = (fm * 16 + pred) * 16 + succ\n")]),
+    ('p-enc-map-lookup', ENC, rlook("map(lookup_register, (rd, rs1, rs2))")),
+    ('p-enc-list-map-lookup', ENC, rlook("list(map(lookup_register, [rd, rs1, rs2]))")),
+    ('p-enc-listcomp-lookup', ENC, rlook("[lookup_register(x) for x in (rd, rs1, rs2)]")),
+    ('p-enc-tuple-genexp-lookup', ENC, rlook("tuple(lookup_register(x) for x in (rd, rs1, rs2))")),
+    ('p-enc-fallback-key', ENC + ['C13'], fallback_key("int(reg, base=0)")),
     ('p-enc-log-call', ENC, [(A, ITYPE_GUARD, "    log.debug('i-type immediate %s', imm)\n" + ITYPE_GUARD, 0)]),
 ]
 
@@ -242,6 +260,9 @@ BREAKING = [
     ('c06-fence-pred-upper-unguarded', ['C01', 'C06'], [(A, FENCE_PRED_GUARD, "    if pred < 0b0000 or succ > 0b1111:\n" + FENCE_PRED_RAISE)]),
     ('c06-fence-merged-guard-slip', ['C01', 'C06'], [(A, FENCE_SUCC_GUARD, ""),
                                                      (A, FENCE_PRED_GUARD, "    if not (0 <= succ <= 0b1111 and 0 <= succ and pred <= 0b1111):\n" + FENCE_PRED_RAISE)]),
+    ('c01-map-lookup-order', ['C01'], rlook("map(lookup_register, (rd, rs2, rs1))")),
+    ('c01-listcomp-lookup-order', ['C01'], rlook("[lookup_register(x) for x in (rs1, rd, rs2)]")),
+    ('c13-fallback-key-base10', ['C13'], fallback_key("int(reg)")),
     ('c02-closure-message-value', ['C02', 'C06'], [(A, CNOT, CNOT_MSG.replace('fields[field] == value', 'fields[field] != value'))]),
 ]
 
